@@ -5,7 +5,8 @@
 # On success stores /verif/seeded/<Cxx>-<v>/{patch.diff,demo.rs,notes.md,meta.json}.
 set -u
 id="$1"; v="$2"
-src="/tmp/seed/$id/SEED/$v"
+base="${SEED_BASE:-/tmp/seed}"; suffix="${SEED_SUFFIX:-}"
+src="$base/$id/SEED/$v"
 [ -f "$src/patch.diff" ] || { echo "$id/$v: no patch"; exit 2; }
 wt="/tmp/vs/$id$v"
 rm -rf "$wt"; mkdir -p /tmp/vs
@@ -28,7 +29,7 @@ verdict="REJECT"
 if [ $clean_rc -eq 0 ] && [ $suite_rc -eq 0 ] && [ $demo_rc -ne 0 ] && echo "$demo_out" | grep -q "test result: FAILED"; then verdict="OK"; fi
 echo "$id/$v: clean_demo_rc=$clean_rc suite_rc=$suite_rc (passed=$passed) patched_demo_rc=$demo_rc => $verdict"
 if [ "$verdict" = OK ]; then
-  out="/verif/seeded/$id-$v"; mkdir -p "$out"
+  out="/verif/seeded/$id-$v$suffix"; mkdir -p "$out"
   cp "$wt/rebased.diff" "$out/patch.diff"; cp "$src/demo.rs" "$out/demo.rs"; cp "$src/notes.md" "$out/notes.md" 2>/dev/null
   python3 - "$id" "$v" "$passed" "$out" <<'PY'
 import json,sys,subprocess
